@@ -118,7 +118,7 @@ func paramNames(fn *ssa.Function, m map[int]bool) string {
 }
 
 func C06(p *an.Prog, r *an.Report) {
-	r.Explanation = "Signing constructors are discovered as exported New*/Create* functions that take a signing private key. For each: (G1a) the signature stored in the returned structure, sliced backwards field-sensitively, must originate from a cryptographic signing primitive (types.Signer.Sign, ed25519.Sign) — a constructor that accepts a key but stores a signature that no signing operation produced is reported; (G1b) every constructor argument that flows into the returned structure also flows into the signed message (nothing is stored unsigned), and the message has no origin outside the arguments and constants; (G1c) the signing key operand originates from the key parameter; (G2) the byte producer on the signing side is the same library function as on the verifying side (C05's message operand) or, for twin producers, draws on the same set of structure fields with the same shallow prefix constants. Whether verification then succeeds for all contents additionally rests on C01 (re-serialisation) and C11 (canonical options). G3: a parsed list keeps distinct elements (needed for parse-then-verify); G4: the verifier's key object is reached through the identity's KeysAndCert. G6: the mapping reader yields only strings from the one string reader (C11.M7). G7: the parser's length arithmetic cannot wrap (C03.S4)."
+	r.Explanation = "Signing constructors are discovered as exported New*/Create* functions that take a signing private key. For each: (G1a) the signature stored in the returned structure, sliced backwards field-sensitively, must originate from a cryptographic signing primitive (types.Signer.Sign, ed25519.Sign) — a constructor that accepts a key but stores a signature that no signing operation produced is reported; (G1b) every constructor argument that flows into the returned structure also flows into the signed message (nothing is stored unsigned), and the message has no origin outside the arguments and constants; (G1c) the signing key operand originates from the key parameter; (G2) the byte producer on the signing side is the same library function as on the verifying side (C05's message operand) or, for twin producers, draws on the same set of structure fields with the same shallow prefix constants. Whether verification then succeeds for all contents additionally rests on C01 (re-serialisation) and C11 (canonical options). G3: a parsed list keeps distinct elements (needed for parse-then-verify); G4: the verifier's key object is reached through the identity's KeysAndCert. G6: the mapping reader yields only strings from the one string reader (C11.M7). G7: the parser's length arithmetic cannot wrap (C03.S4). G8 = C11.M5: every pair the mapping writer can emit is attempted by the mapping reader, so signed options parse back from their own wire form."
 	r.Rule = "one obligation per constructor and clause; non-trivial = constructor resolved with a signing-key parameter"
 	r.Trusted = []string{"go-i2p/crypto signers, crypto/ed25519", "go/ssa"}
 	flow := an.NewFlow(p)
@@ -246,6 +246,11 @@ func C06(p *an.Prog, r *an.Report) {
 	// G7: the parser's length/count arithmetic cannot wrap (same rule as C03.S4): a wrapped extent
 	// moves the signature window, and the parsed copy no longer verifies
 	narrowArith(p, r, "C06.G7", nil)
+	// G8 = C11.M5: every pair the mapping writer can emit (down to 4 bytes) is read back by the
+	// reader, so the options a structure was signed with are the options its wire form parses to;
+	// a reader that drops or rejects a short final pair makes the library fail to verify (or even
+	// parse) its own signed RouterInfo.
+	c11Threshold(p, r)
 	c01DistinctElements(p, r, "C06.G3") // "still verifies after serialise and parse" needs every parsed list element kept distinct
 }
 
